@@ -8,6 +8,7 @@ from .. import pk, gen, cmp, corpus
 from . import c08
 
 ID = 'C02'
+HORIZON_S = 1800   # one case = one input under all its transformations
 LEVEL = 'exploration'
 LEVEL_TEXT = ('Every input of the corpus (docked pairs incl. ligands and ions, clusters, cut-outs with covalently coupled ligand '
               'groups, N-terminal Asp/Cys/His windows, multi-conformation layouts incl. chains present in later models only) is run '
